@@ -117,6 +117,10 @@ def _sf2(args):
     try:
         return sigma_filter(*args)
     except Exception as e:
+        # release the other stripes, which would otherwise wait forever for
+        # this one at the next barrier
+        if barrier is not None:
+            barrier.abort()
         if _verif.ENABLED:
             _verif.point(args[1][0], "task_raised", error=type(e).__name__)
         import traceback
